@@ -584,3 +584,35 @@ Section ReplPinned.
                            (norm_at id (write_at id is_text (fst (subn s)) t), cnt + snd (subn s)))
               (refs n) (n, 0).
 End ReplPinned.
+
+(* ------------------------------------------------------------------ event list -> tree (inverse of [flat]) *)
+(* [parse_kids] reads a sequence of elements (each with its optional tail) and stops at the first event that is not an
+   [Open]; explicit fuel (one unit per element read), [parse] supplies more than enough *)
+Definition take_txt (evs : list ev) : option str * list ev :=
+  match evs with Txt s :: r => (Some s, r) | _ => (None, evs) end.
+Fixpoint parse_kids (fuel : nat) (evs : list ev) : option (list node * list ev) :=
+  match fuel with
+  | O => None
+  | S f =>
+      match evs with
+      | Open k a :: r =>
+          let '(tx, r1) := take_txt r in
+          match parse_kids f r1 with
+          | Some (ks, Close :: r2) =>
+              let '(tl, r3) := take_txt r2 in
+              match parse_kids f r3 with
+              | Some (rest, r4) => Some (Node k a false tx ks tl :: rest, r4)
+              | None => None
+              end
+          | _ => None
+          end
+      | _ => Some ([], evs)
+      end
+  end.
+Definition parse (evs : list ev) : option node :=
+  match parse_kids (S (length evs)) evs with Some ([n], []) => Some n | _ => None end.
+(* the content of an element: optional text, then children *)
+Definition parse_content (evs : list ev) : option (option str * list node) :=
+  let '(tx, r) := take_txt evs in
+  match parse_kids (S (length evs)) r with Some (ks, []) => Some (tx, ks) | _ => None end.
+Fixpoint nosel (n : node) : bool := match n with Node _ _ s _ ks _ => negb s && forallb nosel ks end.
